@@ -17,6 +17,7 @@ import (
 	"github.com/thushan/olla/internal/core/domain"
 	"github.com/thushan/olla/verifharness/backend"
 	"github.com/thushan/olla/verifharness/ev"
+	"github.com/thushan/olla/verifharness/hx"
 	"github.com/thushan/olla/verifharness/rawclient"
 	"github.com/thushan/olla/verifharness/rig"
 	"github.com/thushan/olla/verifharness/stack"
@@ -40,10 +41,15 @@ type Case struct {
 
 func getRig(c Case) (*rig.Rig, error) {
 	return rig.Get("c04/"+c.Engine+"/"+c.Balancer, stack.Options{Engine: c.Engine, Balancer: c.Balancer,
-		Mutate: func(cfg *config.Config) { cfg.Proxy.ConnectionTimeout = 3 * time.Second }}, 3)
+		Mutate: func(cfg *config.Config) { cfg.Proxy.ConnectionTimeout = 500 * time.Millisecond }}, 3)
 }
 
-func asserted(o string) bool { return o == "ok" || o == "refuse" || o == "rst0" || o == "circuit-open" }
+func asserted(o string) bool {
+	return o == "ok" || o == "refuse" || o == "timeout" || o == "rst0" || o == "circuit-open"
+}
+
+// noDial: outcomes at which no connection is ever established (nothing for a backend to record)
+func noDial(o string) bool { return o == "refuse" || o == "timeout" }
 
 func scriptFor(o, id string) backend.Script {
 	ct := [][2]string{{"Content-Type", "application/json"}}
@@ -98,11 +104,18 @@ func runCase(c Case) []ev.Violation {
 	defer r.Mu.Unlock()
 	var eps []rig.EP
 	for i, o := range c.Outcomes {
-		be := i
-		if o == "refuse" {
-			be = -1
+		ep := rig.EP{Backend: i, Priority: 300 - 100*i}
+		switch o {
+		case "refuse":
+			ep.Backend = -1
+		case "timeout":
+			ep.URL = hx.Blackhole()
+			if ep.URL == "" {
+				rec.Inconclusive("no blackhole address available")
+				return nil
+			}
 		}
-		eps = append(eps, rig.EP{Backend: be, Priority: 300 - 100*i})
+		eps = append(eps, ep)
 	}
 	names, urls, err := r.Setup(eps)
 	if err != nil {
@@ -115,13 +128,13 @@ func runCase(c Case) []ev.Violation {
 	}
 	// warm-up: every reachable backend healthy and answering (shapes pools / breaker history)
 	for i, o := range c.Outcomes {
-		if o != "refuse" {
+		if !noDial(o) {
 			r.Raw[i].SetScript(scriptFor("ok", r.Raw[i].ID))
 		}
 	}
 	anyReachable := false
 	for _, o := range c.Outcomes {
-		if o != "refuse" {
+		if !noDial(o) {
 			anyReachable = true
 		}
 	}
@@ -129,7 +142,7 @@ func runCase(c Case) []ev.Violation {
 		for w := 0; w < c.Warmup; w++ {
 			// refusing endpoints are parked offline during warm-up so that warm-up itself is fault-free
 			for i, o := range c.Outcomes {
-				if o == "refuse" {
+				if noDial(o) {
 					_ = r.S.SetStatus(urls[i], domain.StatusOffline)
 				}
 			}
@@ -141,7 +154,7 @@ func runCase(c Case) []ev.Violation {
 	}
 	r.S.SetAll(domain.StatusHealthy)
 	for i, o := range c.Outcomes {
-		if o == "refuse" {
+		if noDial(o) {
 			continue
 		}
 		r.Raw[i].Reset()
@@ -192,7 +205,7 @@ func runCase(c Case) []ev.Violation {
 	var seen []seenT
 	firstIdx, firstSeq := -1, int64(1<<62)
 	for i, o := range c.Outcomes {
-		if o == "refuse" {
+		if noDial(o) {
 			continue
 		}
 		exs := r.Raw[i].Exchanges()
@@ -253,7 +266,7 @@ func runCase(c Case) []ev.Violation {
 		served := -1
 		if id := resp.Get("X-Backend-Id"); id != "" {
 			for i := range c.Outcomes {
-				if c.Outcomes[i] != "refuse" && r.Raw[i].ID == id {
+				if !noDial(c.Outcomes[i]) && r.Raw[i].ID == id {
 					served = i
 				}
 			}
@@ -296,13 +309,13 @@ func runCase(c Case) []ev.Violation {
 	// endpoints that failed at connection level are out of rotation until a health check readmits them
 	st := r.S.Statuses()
 	for i, o := range c.Outcomes {
-		tried := o == "refuse" // cannot observe a refused dial; judged by status only if it must have been tried
+		tried := noDial(o) // cannot observe a refused dial; judged by status only if it must have been tried
 		for _, s := range seen {
 			if s.idx == i && s.n > 0 {
 				tried = true
 			}
 		}
-		if (o == "rst0" && tried) || (o == "refuse" && !anyOK && allAsserted) {
+		if (o == "rst0" && tried) || (noDial(o) && !anyOK && allAsserted) {
 			if routable(st[names[i]]) {
 				bad("failed-endpoint-still-routable/"+o, "candidate %d (%s) failed at connection level but its status is %q afterwards: %s", i, o, st[names[i]], desc)
 			}
@@ -318,7 +331,7 @@ func runCase(c Case) []ev.Violation {
 		}
 		before := map[int]int{}
 		for i, o := range c.Outcomes {
-			if o != "refuse" {
+			if !noDial(o) {
 				before[i] = len(r.Raw[i].Exchanges())
 			}
 		}
@@ -326,7 +339,7 @@ func runCase(c Case) []ev.Violation {
 			_, _ = send(r, c, fmt.Sprintf("follow%d", k), body)
 		}
 		for i, o := range c.Outcomes {
-			if o != "refuse" && marked[i] && len(r.Raw[i].Exchanges()) != before[i] {
+			if !noDial(o) && marked[i] && len(r.Raw[i].Exchanges()) != before[i] {
 				bad("traffic-to-endpoint-out-of-rotation/"+o, "candidate %d is %q but received %d of 5 follow-up requests: %s", i, st[names[i]], len(r.Raw[i].Exchanges())-before[i], desc)
 			}
 		}
@@ -336,6 +349,11 @@ func runCase(c Case) []ev.Violation {
 			if o == "rst0" && marked[i] {
 				readmit = i
 				r.Raw[i].SetScript(scriptFor("ok", r.Raw[i].ID))
+			}
+		}
+		for _, o := range c.Outcomes {
+			if o == "timeout" {
+				readmit = -1 // a health-check round would wait 5 s for the blackhole; readmission is judged in the other tuples
 			}
 		}
 		if readmit >= 0 {
@@ -390,6 +408,21 @@ func enumerate() {
 				if rec.Thorough() || n <= 2 {
 					sets = tuples(full, n)
 				}
+				// connect timeouts (a blackhole address; 0.5 s per attempt): tuples with exactly one such
+				// candidate, pairs always, triples in the thorough tier
+				if n == 2 || (n == 3 && rec.Thorough()) {
+					for _, t := range tuples(append(append([]string{}, assertedSet...), "timeout"), n) {
+						cnt := 0
+						for _, o := range t {
+							if o == "timeout" {
+								cnt++
+							}
+						}
+						if cnt == 1 {
+							sets = append(sets, t)
+						}
+					}
+				}
 				sort.Slice(sets, func(i, j int) bool { return strings.Join(sets[i], ",") < strings.Join(sets[j], ",") })
 				for _, t := range sets {
 					k++
@@ -416,12 +449,16 @@ func genCase(t *rapid.T) Case {
 	for i := 0; i < n; i++ {
 		c.Outcomes = append(c.Outcomes, rapid.SampledFrom(alpha).Draw(t, "outcome"))
 	}
+	// one case in eight: one candidate's connection attempt times out (there is one blackhole address)
+	if rapid.IntRange(0, 7).Draw(t, "timeout") == 0 {
+		c.Outcomes[rapid.IntRange(0, n-1).Draw(t, "timeoutidx")] = "timeout"
+	}
 	return c
 }
 
 func TestC04(t *testing.T) {
 	defer rig.StopAll()
-	rec.SetRule("assignments of per-candidate outcomes to up to 3 endpoints: asserted {ok, refuse, reset-before-headers, circuit-open (olla engine, opened through the exported breaker API)} and explored {closed-without-answer, garbage}; all asserted tuples (and all explored tuples up to length 2; length 3 in thorough) x 3 balancers x 2 engines are enumerated, rapid adds request bodies/methods and warm-up histories; the client response, per-backend attempt counts and request fingerprints, repository statuses, five follow-up requests and a health-check readmission are judged. non-trivial = >=2 candidates with the first-tried one failing; distinct by (engine, balancer, outcome tuple, warm-up, method)")
+	rec.SetRule("assignments of per-candidate outcomes to up to 3 endpoints: asserted {ok, refuse, connect timeout (a local address whose accept queue is full, so dials time out after proxy.connection_timeout = 0.5 s), reset-before-headers, circuit-open (olla engine, opened through the exported breaker API)} and explored {closed-without-answer, garbage}; all asserted tuples (and all explored tuples up to length 2; length 3 in thorough) x 3 balancers x 2 engines are enumerated, rapid adds request bodies/methods and warm-up histories; the client response, per-backend attempt counts and request fingerprints, repository statuses, five follow-up requests and a health-check readmission are judged. non-trivial = >=2 candidates with the first-tried one failing; distinct by (engine, balancer, outcome tuple, warm-up, method)")
 	rec.Assume("for explored outcomes (close without answer, garbage) only at-most-once, no mixing and no 2xx without a working candidate are asserted")
 	if ev.Replay(t, rec, "failover", runCase) {
 		return
